@@ -208,6 +208,12 @@ func AllocCheck(id string) {
 func RaceRecord(on bool)  {}
 func RaceCheck(id string) {}
 
+// Scheduled: from here on goroutines are interleaved by the engine at
+// synchronisation operations (natively: real goroutines). Yield is an
+// explicit scheduling point (natively runtime.Gosched).
+func Scheduled(budget, maxPoints int) {}
+func Yield()                          { runtime.Gosched() }
+
 func Unwind(n int)          {}
 func Flag(name string) bool { load(); return flags[name] }
 func Event(s string)        {}
